@@ -3,7 +3,10 @@ package main
 // Lock discipline (lockset obligations, C08), thread-modular havoc on acquire, ghost ledgers.
 
 import (
+	"fmt"
 	"go/types"
+	"regexp"
+	"strings"
 
 	"golang.org/x/tools/go/ssa"
 )
@@ -185,4 +188,60 @@ func (x *Exec) onAcquire(fr *Frame, st *State, mu Val, write bool) {
 // ledgerUpdate: entry ledger maintenance on children maps.
 func (x *Exec) ledgerUpdate(fr *Frame, st *State, in ssa.Instruction, mt *types.Map, m, key Val, v *Val) {
 	x.mapAccessCheck(fr, st, in, m, true)
+}
+
+// entryLockFact: the ghost lock state at entry.  Nothing is held, except the locks named in
+// `requires held(x.mu)` / `requires wheld(x.mu)` clauses of the unit's contract.
+func (x *Exec) entryLockFact(name, smtName string, w bool) string {
+	arr := strings.TrimSuffix(strings.TrimSuffix(strings.TrimPrefix(name, "L."), ".w"), ".r")
+	exc := x.entryHeld[arr]
+	if len(exc) == 0 {
+		if w {
+			return fmt.Sprintf("(= %s ((as const (Array Ref Bool)) false))", smtName)
+		}
+		return fmt.Sprintf("(= %s ((as const (Array Ref Int)) 0))", smtName)
+	}
+	var ne []string
+	for _, e := range exc {
+		ne = append(ne, fmt.Sprintf("(not (= r!e %s))", e.S))
+	}
+	body := fmt.Sprintf("(not (select %s r!e))", smtName)
+	if !w {
+		body = fmt.Sprintf("(= (select %s r!e) 0)", smtName)
+	}
+	return fmt.Sprintf("(forall ((r!e Ref)) (! (=> (and %s) %s) :pattern ((select %s r!e))))", strings.Join(ne, " "), body, smtName)
+}
+
+var heldRe = regexp.MustCompile(`\bw?held\(([^()]+)\)`)
+
+// collectEntryHeld evaluates the owners of the locks the contract requires to be held.
+func (x *Exec) collectEntryHeld(fr *Frame, st *State) {
+	x.entryHeld = map[string][]Term{}
+	if x.contract == nil {
+		return
+	}
+	env := x.specEnv(fr, st, nil)
+	for _, cl := range x.contract.Requires {
+		for _, m := range heldRe.FindAllStringSubmatch(cl.Text, -1) {
+			expr := strings.TrimSpace(m[1])
+			i := strings.LastIndex(expr, ".")
+			if i < 0 {
+				continue
+			}
+			n, err := ParseSpec(expr[:i])
+			if err != nil {
+				continue
+			}
+			ov, err := env.EvalVal(n)
+			if err != nil || ov.Typ == nil {
+				continue
+			}
+			pt, ok := types.Unalias(ov.Typ).Underlying().(*types.Pointer)
+			if !ok {
+				continue
+			}
+			arr, owner := x.guardLoc(st, pt.Elem(), ov.T, expr[i+1:])
+			x.entryHeld[arr] = append(x.entryHeld[arr], owner)
+		}
+	}
 }
